@@ -127,6 +127,7 @@ type (
 		SignedAccumulator *SignedAccumulator
 		Events            []*Event
 		product           *big.Int
+		productFrom       uint64 // index of the first event included in product
 	}
 
 	// Hash represents a SHA256 hash and has marshaling methods to/from JSON.
@@ -308,10 +309,13 @@ func (update *Update) Verify(pk *gabikeys.PublicKey) (*Accumulator, error) {
 }
 
 func (update *Update) Product(from uint64) *big.Int {
-	if update.product != nil {
+	// The cached product is only valid for the starting index it was computed for: the same
+	// Update may be applied to witnesses that are at different accumulator indices.
+	if update.product != nil && update.productFrom == from {
 		return update.product
 	}
 	update.product = big.NewInt(1)
+	update.productFrom = from
 	if len(update.Events) == 0 {
 		return update.product
 	}
@@ -344,6 +348,7 @@ func (update *Update) Prepend(eventlist *EventList) error {
 	n.Events = append(eventlist.Events, n.Events...)
 	if eventlist.product != nil {
 		n.product.Mul(n.product, eventlist.product)
+		n.productFrom = n.Events[0].Index
 	} else {
 		n.product = nil
 	}
